@@ -101,12 +101,13 @@ def strip_comments(src):
     return re.sub(r"--.*", "", src)
 
 
-def prove(modules, extra_sources=()):
+def prove(modules, components=()):
     """build the theorem modules; return dict(ok, theorems=[(name, axioms)], errors=[...])"""
-    out = {"ok": True, "theorems": [], "errors": [], "cmd": "cd lean && lake build " + " ".join(modules)}
+    out = {"ok": True, "theorems": [], "errors": [],
+           "cmd": "cd lean && lake build " + " ".join(["jf_" + c for c in components] + list(modules))}
 
     def work():
-        p = _lake(["build", "jfdriver"] + list(modules))
+        p = _lake(["build"] + ["jf_" + c for c in components] + list(modules))
         if p.returncode != 0:
             out["ok"] = False
             out["errors"].append("lake build failed:\n" + (p.stdout + p.stderr)[-6000:])
@@ -213,7 +214,7 @@ def main(argv=None):
             except Exception as e:  # a source the translator cannot read is a broken tie, not a harness crash
                 gen_err = f"translator failed: {e!r}"
 
-        proof = prove(getattr(mod, "THEOREM_MODULES", [f"JF.Props.{pid}"]))
+        proof = prove(getattr(mod, "THEOREM_MODULES", [f"JF.Props.{pid}"]), getattr(mod, "COMPONENTS", ()))
         if gen_err:
             proof["ok"] = False
             proof["errors"].append(gen_err)
